@@ -1367,6 +1367,393 @@ M('C10', 'header-sep', TY, "headers=''.join('{key}: {val}\\n'.format(key=key, va
 T('C10', 'twin-crc-hex', TY, "        return crc & 0xFFFFFF", "        return crc & 16777215")
 T('C10', 'twin-payload-var', TY, "        payload = base64.b64encode(self.__bytes__()).decode('latin-1')\n        payload = '\\n'.join(payload[i:(i + 64)] for i in range(0, len(payload), 64))", "        b64 = base64.b64encode(self.__bytes__()).decode('latin-1')\n        payload = '\\n'.join(b64[i:(i + 64)] for i in range(0, len(b64), 64))")
 
+# ---- C10 hardening: twins (every family a rule was made blind to) and new mutants (one or more per rewritten rule)
+_CRC_BODY = """        crc = Armorable.__crc24_init
+
+        if not isinstance(data, bytearray):
+            data = iter(data)
+
+        for b in data:
+            crc ^= b << 16
+
+            for i in range(8):
+                crc <<= 1
+                if crc & 0x1000000:
+                    crc ^= Armorable.__crc24_poly
+
+        return crc & 0xFFFFFF
+"""
+T('C10', 'twin-crc-renamed-hoisted', TY, _CRC_BODY, """        poly = Armorable.__crc24_poly
+        carry = 0x1000000
+        mask = 0xFFFFFF
+
+        if isinstance(data, bytearray):
+            octets = data
+        else:
+            octets = iter(data)
+
+        register = Armorable.__crc24_init
+        for octet in octets:
+            register = register ^ (octet << 16)
+
+            for _ in range(8):
+                register = register << 1
+                if (register & carry) != 0:
+                    register = register ^ poly
+
+        return register & mask
+""")
+T('C10', 'twin-crc-literals-inline', TY, _CRC_BODY, """        acc = 0xB704CE
+        for octet in bytearray(data):
+            acc ^= octet << 16
+            for _round in range(0, 8):
+                acc <<= 1
+                if acc & (1 << 24):
+                    acc ^= 0x1864CFB
+        return acc & ((1 << 24) - 1)
+""")
+T('C10', 'twin-crc-test-before-shift', TY, _CRC_BODY, """        crc = Armorable.__crc24_init
+        for b in (data if isinstance(data, bytearray) else iter(data)):
+            crc ^= b << 16
+            for i in range(8):
+                # bit 23 before the shift is bit 24 after it
+                crc = (crc << 1) ^ (Armorable.__crc24_poly if crc & 0x800000 else 0)
+        return crc & 0xFFFFFF
+""")
+T('C10', 'twin-crc-mask-each-round', TY, _CRC_BODY, """        crc = Armorable.__crc24_init
+
+        if not isinstance(data, bytearray):
+            data = iter(data)
+
+        for b in data:
+            crc ^= b << 16
+
+            for i in range(8):
+                crc <<= 1
+                if crc & 0x1000000:
+                    crc ^= Armorable.__crc24_poly
+                crc &= 0xFFFFFF
+
+        return crc
+""")
+M('C10', 'crc-wrong-overflow-bit', TY, "                if crc & 0x1000000:", "                if crc & 0x800000:", 'C10.1')
+M('C10', 'crc-xor-always', TY, "                if crc & 0x1000000:\n                    crc ^= Armorable.__crc24_poly", "                crc ^= Armorable.__crc24_poly", 'C10.1')
+M('C10', 'crc-or-instead-of-xor', TY, "            crc ^= b << 16", "            crc |= b << 16", 'C10.1')
+M('C10', 'crc-rounds-9', TY, "            for i in range(8):\n                crc <<= 1", "            for i in range(9):\n                crc <<= 1", 'C10.1')
+M('C10', 'crc-mask-23-bits', TY, "        return crc & 0xFFFFFF", "        return crc & 0x7FFFFF", 'C10.1')
+M('C10', 'crc-poly-is-init', TY, "                    crc ^= Armorable.__crc24_poly", "                    crc ^= Armorable.__crc24_init", 'C10.1')
+M('C10', 'crc-shift-after-test', TY, "                crc <<= 1\n                if crc & 0x1000000:\n                    crc ^= Armorable.__crc24_poly", "                if crc & 0x1000000:\n                    crc ^= Armorable.__crc24_poly\n                crc <<= 1", 'C10.1')
+M('C10', 'crc-skips-first-octet-of-bytes', TY, "            data = iter(data)", "            data = iter(data[1:])", 'C10.1')
+
+_STR_BODY = """        payload = base64.b64encode(self.__bytes__()).decode('latin-1')
+        payload = '\\n'.join(payload[i:(i + 64)] for i in range(0, len(payload), 64))
+
+        return self.__armor_fmt.format(
+            block_type=self.magic,
+            headers=''.join('{key}: {val}\\n'.format(key=key, val=val) for key, val in self.ascii_headers.items()),
+            packet=payload,
+            crc=base64.b64encode(PGPObject.int_to_bytes(self.crc24(self.__bytes__()), 3)).decode('latin-1')
+        )
+"""
+T('C10', 'twin-str-helpers-locals', TY, "    def __str__(self):\n" + _STR_BODY, """    @staticmethod
+    def _radix64(octets):
+        return base64.b64encode(octets).decode('latin-1')
+
+    def _armor_header_lines(self):
+        lines = []
+        for key, val in self.ascii_headers.items():
+            lines.append('{key}: {val}\\n'.format(key=key, val=val))
+        return ''.join(lines)
+
+    def __str__(self):
+        width = 64
+        encoded = self._radix64(self.__bytes__())
+        rows = [encoded[start:(start + width)] for start in range(0, len(encoded), width)]
+        payload = '\\n'.join(rows)
+
+        block_type = self.magic
+        headers = self._armor_header_lines()
+        checksum = PGPObject.int_to_bytes(self.crc24(self.__bytes__()), 3)
+
+        return self.__armor_fmt.format(
+            block_type=block_type,
+            headers=headers,
+            packet=payload,
+            crc=self._radix64(checksum)
+        )
+""")
+T('C10', 'twin-str-concatenation', TY, _STR_BODY, """        octets = self.__bytes__()
+        text = str(base64.b64encode(octets), 'ascii')
+        lines = []
+        for off in range(0, len(text), 64):
+            lines.append(text[off:off + 64])
+        out = '-----BEGIN PGP ' + self.magic + '-----\\n'
+        out += ''.join(key + ': ' + val + '\\n' for key, val in self.ascii_headers.items())
+        out += '\\n' + '\\n'.join(lines) + '\\n'
+        out += '=' + base64.b64encode(PGPObject.int_to_bytes(Armorable.crc24(self.__bytes__()), minlen=3)).decode('ascii') + '\\n'
+        out += '-----END PGP ' + self.magic + '-----\\n'
+        return out
+""")
+T('C10', 'twin-str-fstring-percent', TY, _STR_BODY, """        payload = base64.b64encode(self.__bytes__()).decode()
+        payload = '\\n'.join([payload[i:i + 64] for i in range(0, len(payload), 64)])
+        headers = ''.join(['%s: %s\\n' % (k, v) for k, v in self.ascii_headers.items()])
+        crc = base64.b64encode(PGPObject.int_to_bytes(self.crc24(self.__bytes__()), 3)).decode()
+        return f'-----BEGIN PGP {self.magic}-----\\n{headers}\\n{payload}\\n={crc}\\n-----END PGP {self.magic}-----\\n'
+""")
+T('C10', 'twin-str-fstring-header-line', TY, "headers=''.join('{key}: {val}\\n'.format(key=key, val=val) for key, val in self.ascii_headers.items()),",
+  "headers=''.join(f'{name}: {value}\\n' for name, value in self.ascii_headers.items()),")
+M('C10', 'crc-over-all-but-last-octet', TY, "self.crc24(self.__bytes__()), 3)", "self.crc24(self.__bytes__()[:-1]), 3)", 'C10.2')
+M('C10', 'crc-equals-sign-dropped', TY, "                  '={crc}\\n' \\\n", "                  '{crc}\\n' \\\n", 'C10.2')
+M('C10', 'payload-of-other-export', TY, "        payload = base64.b64encode(self.__bytes__()).decode('latin-1')", "        payload = base64.b64encode(self.__bytes__()[1:]).decode('latin-1')", 'C10.2')
+M('C10', 'label-class-name', TY, "            block_type=self.magic,", "            block_type=self.__class__.__name__.upper(),", 'C10.2')
+M('C10', 'wrap-66-not-a-quantum', TY, "        payload = '\\n'.join(payload[i:(i + 64)] for i in range(0, len(payload), 64))", "        payload = '\\n'.join(payload[i:(i + 66)] for i in range(0, len(payload), 66))", 'C10.3')
+M('C10', 'reader-lines-60', TY, "(?P<body>([A-Za-z0-9+/]{1,76}={,2}(?:\\r?\\n))+)", "(?P<body>([A-Za-z0-9+/]{1,60}={,2}(?:\\r?\\n))+)", 'C10.3')
+M('C10', 'reader-no-padding', TY, "(?P<body>([A-Za-z0-9+/]{1,76}={,2}(?:\\r?\\n))+)", "(?P<body>([A-Za-z0-9+/]{1,76}(?:\\r?\\n))+)", 'C10.3')
+M('C10', 'reader-crc-group-5', TY, "^=(?P<crc>[A-Za-z0-9+/]{4})(?:\\r?\\n)", "^=(?P<crc>[A-Za-z0-9+/]{4,5})(?:\\r?\\n)", 'C10.2')
+T('C10', 'twin-regex-spelling', TY, "^=(?P<crc>[A-Za-z0-9+/]{4})(?:\\r?\\n)", "^=(?P<crc>(?:[A-Za-z0-9+/]{2}){2})(?:\\r\\n|\\n)")
+T('C10', 'twin-regex-body-spelling', TY, "(?P<body>([A-Za-z0-9+/]{1,76}={,2}(?:\\r?\\n))+)", "(?P<body>(?:[0-9A-Za-z/+]{1,76}(?:={1,2})?\\r?\\n)+)")
+
+_KEY_MAGIC = """        return '{:s} KEY BLOCK'.format('PUBLIC' if (isinstance(self._key, Public) and not isinstance(self._key, Private)) else
+                                       'PRIVATE' if isinstance(self._key, Private) else '')
+"""
+T('C10', 'twin-key-magic-if-chain', PGP, _KEY_MAGIC, """        if isinstance(self._key, Private):
+            return 'PRIVATE KEY BLOCK'
+        if isinstance(self._key, Public):
+            return 'PUBLIC KEY BLOCK'
+        return ' KEY BLOCK'
+""")
+T('C10', 'twin-key-magic-concat', PGP, _KEY_MAGIC, """        kind = ''
+        if isinstance(self._key, Private):
+            kind = 'PRIVATE'
+        elif isinstance(self._key, Public):
+            kind = 'PUBLIC'
+        return kind + ' KEY BLOCK'
+""")
+T('C10', 'twin-message-magic-ifexp', PGP, "        if self.type == 'cleartext':\n            return \"SIGNATURE\"\n        return \"MESSAGE\"",
+  "        return 'SIGNATURE' if self.type == 'cleartext' else 'MESSAGE'")
+M('C10', 'key-magic-swapped', PGP, "'PRIVATE' if isinstance(self._key, Private) else '')", "'PUBLIC' if isinstance(self._key, Private) else '')", 'C10.4',
+  more=[(PGP, "        return '{:s} KEY BLOCK'.format('PUBLIC' if (isinstance", "        return '{:s} KEY BLOCK'.format('PRIVATE' if (isinstance")])
+M('C10', 'key-magic-private-as-public', PGP, "'PUBLIC' if (isinstance(self._key, Public) and not isinstance(self._key, Private)) else", "'PUBLIC' if isinstance(self._key, Public) else", 'C10.4')
+M('C10', 'signature-label-lowercase', PGP, "    def magic(self):\n        return \"SIGNATURE\"", "    def magic(self):\n        return \"Signature\"", 'C10.4')
+
+_SIG_CHECK = "        if unarmored['magic'] is not None and unarmored['magic'] != 'SIGNATURE':\n            raise ValueError('Expected: SIGNATURE. Got: {}'.format(str(unarmored['magic'])))\n"
+_MSG_CHECK = "        if unarmored['magic'] is not None and unarmored['magic'] not in ['MESSAGE', 'SIGNATURE']:\n            raise ValueError('Expected: MESSAGE. Got: {}'.format(str(unarmored['magic'])))\n"
+_KEY_CHECK = "        if unarmored['magic'] is not None and 'KEY' not in unarmored['magic']:\n            raise ValueError('Expected: KEY. Got: {}'.format(str(unarmored['magic'])))\n"
+T('C10', 'twin-kind-checks-local-demorgan-tuple', PGP, _SIG_CHECK,
+  "        magic = unarmored['magic']\n        if not (magic is None or magic == 'SIGNATURE'):\n            raise ValueError('Expected: SIGNATURE. Got: {}'.format(str(magic)))\n",
+  more=[(PGP, "class PGPMessage(Armorable, PGPObject):\n", "class PGPMessage(Armorable, PGPObject):\n    _armor_kinds = ('MESSAGE', 'SIGNATURE')\n\n"),
+        (PGP, _MSG_CHECK, "        magic = unarmored['magic']\n        if magic is not None and magic not in self._armor_kinds:\n            raise ValueError('Expected: MESSAGE. Got: {}'.format(str(magic)))\n"),
+        (PGP, "        # cleartext signature\n        if unarmored['magic'] == 'SIGNATURE':", "        # cleartext signature\n        if magic == 'SIGNATURE':"),
+        (PGP, _KEY_CHECK, "        magic = unarmored['magic']\n        if magic is not None and 'KEY' not in magic:\n            raise ValueError('Expected: KEY. Got: {}'.format(str(magic)))\n")])
+T('C10', 'twin-kind-checks-nested-if-set', PGP, _SIG_CHECK,
+  "        if unarmored['magic'] is not None:\n            if not unarmored['magic'] == 'SIGNATURE':\n                raise ValueError('Expected: SIGNATURE. Got: {}'.format(str(unarmored['magic'])))\n",
+  more=[(PGP, _MSG_CHECK, "        label = unarmored['magic']\n        if label is None or label in {'MESSAGE', 'SIGNATURE'}:\n            pass\n        else:\n            raise ValueError('Expected: MESSAGE. Got: {}'.format(str(label)))\n"),
+        (PGP, _KEY_CHECK, "        if unarmored['magic'] is not None and unarmored['magic'].find('KEY') < 0:\n            raise ValueError('Expected: KEY. Got: {}'.format(str(unarmored['magic'])))\n")])
+T('C10', 'twin-message-parse-generator-helper', PGP, "    def parse(self, packet):\n        unarmored = self.ascii_unarmor(packet)\n        data = unarmored['body']\n\n        if unarmored['magic'] is not None and unarmored['magic'] not in ['MESSAGE', 'SIGNATURE']:",
+  "    @staticmethod\n    def _iter_packets(data):\n        while len(data) > 0:\n            yield Packet(data)\n\n    def parse(self, packet):\n        unarmored = self.ascii_unarmor(packet)\n        data = unarmored['body']\n\n        if unarmored['magic'] is not None and unarmored['magic'] not in ['MESSAGE', 'SIGNATURE']:",
+  more=[(PGP, "            while len(data) > 0:\n                pkt = Packet(data)\n                if not isinstance(pkt, Signature):  # pragma: no cover", "            for pkt in self._iter_packets(data):\n                if not isinstance(pkt, Signature):  # pragma: no cover"),
+        (PGP, "        else:\n            while len(data) > 0:\n                self |= Packet(data)\n", "        else:\n            for pkt in self._iter_packets(data):\n                self |= pkt\n")])
+M('C10', 'sig-kind-check-or', PGP, "        if unarmored['magic'] is not None and unarmored['magic'] != 'SIGNATURE':", "        if unarmored['magic'] is None or unarmored['magic'] != 'SIGNATURE':", 'C10.5')
+M('C10', 'sig-kind-check-after-packet', PGP, _SIG_CHECK + "\n        if unarmored['headers'] is not None:\n            self.ascii_headers = unarmored['headers']\n\n        # load *one* packet from data\n        pkt = Packet(data)\n",
+  "        if unarmored['headers'] is not None:\n            self.ascii_headers = unarmored['headers']\n\n        # load *one* packet from data\n        pkt = Packet(data)\n" + _SIG_CHECK, 'C10.5')
+M('C10', 'msg-kind-check-accepts-private-key', PGP, "unarmored['magic'] not in ['MESSAGE', 'SIGNATURE']:", "unarmored['magic'] not in ['MESSAGE', 'SIGNATURE', 'PRIVATE KEY BLOCK']:", 'C10.5')
+M('C10', 'msg-kind-check-drops-signature', PGP, "unarmored['magic'] not in ['MESSAGE', 'SIGNATURE']:", "unarmored['magic'] not in ['MESSAGE']:", 'C10.5')
+M('C10', 'key-kind-check-typeerror', PGP, "            raise ValueError('Expected: KEY. Got: {}'.format(str(unarmored['magic'])))", "            raise TypeError('Expected: KEY. Got: {}'.format(str(unarmored['magic'])))", 'C10.5')
+M('C10', 'key-kind-check-only-warns', PGP, "            raise ValueError('Expected: KEY. Got: {}'.format(str(unarmored['magic'])))", "            warnings.warn('Expected: KEY. Got: {}'.format(str(unarmored['magic'])))", 'C10.5')
+M('C10', 'key-kind-check-accepts-anything-with-e', PGP, "'KEY' not in unarmored['magic']:", "'E' not in unarmored['magic']:", 'C10.5')
+M('C10', 'cleartext-fallback-empty', PGP, "            self |= self.dash_unescape(unarmored['cleartext'])", "            self |= self.dash_unescape(unarmored['cleartext'] or '')", 'C10.5')
+
+_UNARMOR_TAIL = """        m = Armorable.__armor_regex.search(text)
+
+        if m is None:  # pragma: no cover
+            raise ValueError("Expected: ASCII-armored PGP data")
+
+        m = m.groupdict()
+
+        if m['hashes'] is not None:
+            m['hashes'] = m['hashes'].split(',')
+
+        if m['headers'] is not None:
+            m['headers'] = collections.OrderedDict(re.findall('^(?P<key>.+): (?P<value>.+)$\\n?', m['headers'], flags=re.MULTILINE))
+
+        if m['body'] is not None:
+            try:
+                m['body'] = bytearray(base64.b64decode(m['body'].encode()))
+
+            except (binascii.Error, TypeError) as ex:
+                raise PGPError(str(ex)) from ex
+
+        if m['crc'] is not None:
+            m['crc'] = Header.bytes_to_int(base64.b64decode(m['crc'].encode()))
+            if Armorable.crc24(m['body']) != m['crc']:
+                warnings.warn('Incorrect crc24', stacklevel=3)
+
+        return m
+"""
+T('C10', 'twin-unarmor-split-names-temporaries', TY, _UNARMOR_TAIL, """        match = Armorable.__armor_regex.search(text)
+
+        if match is None:  # pragma: no cover
+            raise ValueError("Expected: ASCII-armored PGP data")
+
+        fields = match.groupdict()
+
+        hashes = fields['hashes']
+        if hashes is not None:
+            fields['hashes'] = hashes.split(',')
+
+        headers = fields['headers']
+        if headers is not None:
+            fields['headers'] = collections.OrderedDict(Armorable.__armor_header_regex.findall(headers))
+
+        body = fields['body']
+        if body is not None:
+            try:
+                body = bytearray(base64.b64decode(body.encode()))
+
+            except (binascii.Error, TypeError) as ex:
+                raise PGPError(str(ex)) from ex
+
+            fields['body'] = body
+
+        crc = fields['crc']
+        if crc is not None:
+            expected = Header.bytes_to_int(base64.b64decode(crc.encode()))
+            fields['crc'] = expected
+            if Armorable.crc24(body) != expected:
+                warnings.warn('Incorrect crc24', stacklevel=3)
+
+        return fields
+""", more=[(TY, "    @property\n    def charset(self):", "    __armor_header_regex = re.compile('^(?P<key>.+): (?P<value>.+)$\\n?', flags=re.MULTILINE)\n\n    @property\n    def charset(self):")])
+T('C10', 'twin-unarmor-swapped-compare-else', TY, "            if Armorable.crc24(m['body']) != m['crc']:\n                warnings.warn('Incorrect crc24', stacklevel=3)",
+  "            if m['crc'] == Armorable.crc24(m['body']):\n                pass\n            else:\n                warnings.warn('Incorrect crc24', stacklevel=3)")
+T('C10', 'twin-unarmor-early-return-no-crc', TY, "        if m['crc'] is not None:\n            m['crc'] = Header.bytes_to_int(base64.b64decode(m['crc'].encode()))\n            if Armorable.crc24(m['body']) != m['crc']:\n                warnings.warn('Incorrect crc24', stacklevel=3)\n\n        return m",
+  "        if m['crc'] is None:\n            return m\n\n        m['crc'] = int.from_bytes(base64.b64decode(m['crc'].encode('ascii')), 'big')\n        mismatch = Armorable.crc24(m['body']) != m['crc']\n        if mismatch:\n            warnings.warn('Incorrect crc24', stacklevel=3)\n\n        return m")
+M('C10', 'crc-compared-undecoded', TY, "            m['crc'] = Header.bytes_to_int(base64.b64decode(m['crc'].encode()))\n            if Armorable.crc24(m['body']) != m['crc']:",
+  "            if Armorable.crc24(m['body']) != m['crc']:", 'C10.6')
+M('C10', 'crc-of-the-crc-line', TY, "            if Armorable.crc24(m['body']) != m['crc']:", "            if Armorable.crc24(base64.b64decode(m['crc'] if False else 'AAAA')) != m['crc']:", 'C10.6')
+M('C10', 'crc-warn-in-else', TY, "            if Armorable.crc24(m['body']) != m['crc']:\n                warnings.warn('Incorrect crc24', stacklevel=3)",
+  "            if Armorable.crc24(m['body']) != m['crc']:\n                pass\n            else:\n                warnings.warn('Incorrect crc24', stacklevel=3)", 'C10.6')
+M('C10', 'crc-checked-only-with-headers', TY, "            if Armorable.crc24(m['body']) != m['crc']:", "            if m['headers'] is not None and Armorable.crc24(m['body']) != m['crc']:", 'C10.6')
+M('C10', 'body-not-decoded', TY, "                m['body'] = bytearray(base64.b64decode(m['body'].encode()))", "                m['body'] = bytearray(m['body'].encode())", 'C10.6')
+M('C10', 'is-armor-match', TY, "        return Armorable.__armor_regex.search(text) is not None", "        return Armorable.__armor_regex.match(text) is not None", 'C10.7')
+M('C10', 'header-reader-sep-no-space', TY, "re.findall('^(?P<key>.+): (?P<value>.+)$\\n?', m['headers'], flags=re.MULTILINE)", "re.findall('^(?P<key>.+):(?P<value>.+)$\\n?', m['headers'], flags=re.MULTILINE)", 'C10.7')
+M('C10', 'end-label-not-tied', TY, "^-{5}END\\ PGP\\ (?P=magic)-{5}(?:\\r?\\n)?", "^-{5}END\\ PGP\\ [A-Z0-9 ,]+-{5}(?:\\r?\\n)?", 'C10.7')
+T('C10', 'twin-str-textwrap-to-bytes', TY, "        payload = '\\n'.join(payload[i:(i + 64)] for i in range(0, len(payload), 64))", "        payload = '\\n'.join(textwrap.wrap(payload, 64))",
+  more=[(TY, "crc=base64.b64encode(PGPObject.int_to_bytes(self.crc24(self.__bytes__()), 3)).decode('latin-1')", "crc=base64.b64encode(self.crc24(self.__bytes__()).to_bytes(3, 'big')).decode('latin-1')"),
+        (TY, "import warnings\n", "import textwrap\nimport warnings\n")])
+M('C10', 'wrap-textwrap-80', TY, "        payload = '\\n'.join(payload[i:(i + 64)] for i in range(0, len(payload), 64))", "        payload = '\\n'.join(textwrap.wrap(payload, 80))", 'C10.3',
+  more=[(TY, "import warnings\n", "import textwrap\nimport warnings\n")])
+M('C10', 'crc-to-bytes-2', TY, "crc=base64.b64encode(PGPObject.int_to_bytes(self.crc24(self.__bytes__()), 3)).decode('latin-1')", "crc=base64.b64encode((self.crc24(self.__bytes__()) & 0xFFFF).to_bytes(2, 'big')).decode('latin-1')", 'C10.2')
+T('C10', 'twin-kind-check-frozenset-constant', PGP, _MSG_CHECK, "        if unarmored['magic'] is not None and unarmored['magic'] not in PGPMessage._ARMOR_LABELS:\n            raise ValueError('Expected: MESSAGE. Got: {}'.format(str(unarmored['magic'])))\n",
+  more=[(PGP, "class PGPMessage(Armorable, PGPObject):\n", "class PGPMessage(Armorable, PGPObject):\n    _ARMOR_LABELS = frozenset(['MESSAGE', 'SIGNATURE'])\n\n")])
+M('C10', 'kind-check-frozenset-with-key-label', PGP, _MSG_CHECK, "        if unarmored['magic'] is not None and unarmored['magic'] not in PGPMessage._ARMOR_LABELS:\n            raise ValueError('Expected: MESSAGE. Got: {}'.format(str(unarmored['magic'])))\n", 'C10.5',
+  more=[(PGP, "class PGPMessage(Armorable, PGPObject):\n", "class PGPMessage(Armorable, PGPObject):\n    _ARMOR_LABELS = frozenset(['MESSAGE', 'SIGNATURE', 'PUBLIC KEY BLOCK'])\n\n")])
+T('C10', 'twin-crc-msb-first-formulation', TY, _CRC_BODY, """        crc = Armorable.__crc24_init
+        for b in bytes(data):
+            for bit in range(7, -1, -1):
+                top = ((crc >> 23) ^ (b >> bit)) & 1
+                crc = (crc << 1) & 0xFFFFFF
+                if top:
+                    crc ^= Armorable.__crc24_poly & 0xFFFFFF
+        return crc
+""")
+M('C10', 'crc-msb-first-wrong-tap', TY, _CRC_BODY, """        crc = Armorable.__crc24_init
+        for b in bytes(data):
+            for bit in range(7, -1, -1):
+                top = ((crc >> 22) ^ (b >> bit)) & 1
+                crc = (crc << 1) & 0xFFFFFF
+                if top:
+                    crc ^= Armorable.__crc24_poly & 0xFFFFFF
+        return crc
+""", 'C10.1')
+T('C10', 'twin-str-headers-by-key-newline-in-body', TY, _STR_BODY, """        payload = base64.b64encode(self.__bytes__()).decode('latin-1')
+        lines = [payload[i:(i + 64)] for i in range(0, len(payload), 64)]
+        body = '\\n'.join(lines) + '\\n'
+        headers = ''
+        for name in self.ascii_headers:
+            headers += '{}: {}\\n'.format(name, self.ascii_headers[name])
+
+        return '-----BEGIN PGP {0}-----\\n{1}\\n{2}={3}\\n-----END PGP {0}-----\\n'.format(
+            self.magic, headers, body, base64.b64encode(PGPObject.int_to_bytes(self.crc24(self.__bytes__()), 3)).decode('latin-1'))
+""")
+M('C10', 'headers-value-is-key', TY, "'{key}: {val}\\n'.format(key=key, val=val)", "'{key}: {val}\\n'.format(key=key, val=key)", 'C10.7')
+M('C10', 'headers-joined-without-newline', TY, "'{key}: {val}\\n'.format(key=key, val=val)", "'{key}: {val}'.format(key=key, val=val)", 'C10.7')
+T('C10', 'twin-kind-checks-none-in-tuple-truthiness', PGP, _SIG_CHECK, "        if unarmored['magic'] not in (None, 'SIGNATURE'):\n            raise ValueError('Expected: SIGNATURE. Got: {}'.format(str(unarmored['magic'])))\n",
+  more=[(PGP, _MSG_CHECK, "        accepted = {'MESSAGE', 'SIGNATURE'}\n        if unarmored['magic'] and unarmored['magic'] not in accepted:\n            raise ValueError('Expected: MESSAGE. Got: {}'.format(str(unarmored['magic'])))\n"),
+        (PGP, _KEY_CHECK, "        if unarmored['magic'] is not None and not unarmored['magic'].count('KEY'):\n            raise ValueError('Expected: KEY. Got: {}'.format(str(unarmored['magic'])))\n")])
+T('C10', 'twin-unarmor-compound-condition-raise', TY, "        if m['crc'] is not None:\n            m['crc'] = Header.bytes_to_int(base64.b64decode(m['crc'].encode()))\n            if Armorable.crc24(m['body']) != m['crc']:\n                warnings.warn('Incorrect crc24', stacklevel=3)",
+  "        if m['crc']:\n            m['crc'] = Header.bytes_to_int(base64.b64decode(m['crc'].encode()))\n        if m['crc'] is not None and not (Armorable.crc24(m['body']) == m['crc']):\n            import logging\n            logging.getLogger(__name__).warning('Incorrect crc24')")
+M('C10', 'crc-compound-condition-or', TY, "            if Armorable.crc24(m['body']) != m['crc']:", "            if m['magic'] == 'SIGNATURE' and Armorable.crc24(m['body']) != m['crc']:", 'C10.6')
+
+
+# ---- stress patches written by independent sub-agents (selftest/patches/G9-*.diff), turned into text edits hunk by hunk
+def _edits_from_diff(name):
+    import os, re
+    path = os.path.join(os.path.dirname(os.path.abspath(__file__)) if '__file__' in globals() else 'selftest', 'patches', name)
+    if not os.path.exists(path):
+        path = os.path.join('selftest', 'patches', name)
+    edits, cur, old, new = [], None, [], []
+
+    def flush():
+        if cur is not None and (old or new) and old != new:
+            edits.append((cur, ''.join(old), ''.join(new)))
+    with open(path, encoding='utf-8') as fh:
+        lines = fh.read().splitlines(keepends=True)
+    for l in lines:
+        if l.startswith('--- '):
+            continue
+        if l.startswith('+++ '):
+            flush()
+            old, new = [], []
+            cur = re.sub(r'^b/', '', l[4:].split('\t')[0].strip())
+            continue
+        if l.startswith('@@'):
+            flush()
+            old, new = [], []
+            continue
+        if cur is None or l.startswith('\\'):
+            continue
+        if l.startswith('-'):
+            old.append(l[1:])
+        elif l.startswith('+'):
+            new.append(l[1:])
+        elif l.startswith(' ') or l == '\n':
+            old.append(l[1:] if l.startswith(' ') else l)
+            new.append(l[1:] if l.startswith(' ') else l)
+    flush()
+    return edits
+
+
+def _TD(prop, id, name):
+    e = _edits_from_diff(name)
+    T(prop, id, e[0][0], e[0][1], e[0][2], more=e[1:])
+
+
+def _MD(prop, id, name, rule):
+    e = _edits_from_diff(name)
+    M(prop, id, e[0][0], e[0][1], e[0][2], rule, more=e[1:])
+
+
+for _n, _what in (('A-twin01', 'crc-test-before-shift-textwrap'), ('A-twin02', 'crc-variant-writer-variant'), ('A-twin07', 'writer-helpers-head-tail-constants'),
+                  ('A-twin08', 'writer-percent-template-findall'), ('A-twin10', 'writer-format-map-standard-b64encode')):
+    _TD('C10', 'stress-%s-%s' % (_n, _what), 'G9-%s.diff' % _n)
+for _n, _what, _r in (('A-mut01', 'crc-width-pad-dropped', 'C10.2'), ('A-mut02', 'header-lines-joined-by-newline', 'C10.7'), ('A-mut04', 'crc-restarts-per-slice', 'C10.2'),
+                      ('A-mut06', 'crc-greater-than-instead-of-bit-test', 'C10.1'), ('A-mut07', 'crc-urlsafe-alphabet', 'C10.2'), ('A-mut08', 'crc-mask-20-bits', 'C10.1')):
+    _MD('C10', 'stress-%s-%s' % (_n, _what), 'G9-%s.diff' % _n, _r)
+for _i, _what in enumerate(('local-none-in-tuple-fstring', 'shared-helper-with-predicates', 'class-constants-inverted-branches', 'packet-generator-if-chain-labels',
+                            'demorgan-iter-sentinel-loop', 'nested-ifs-percent-messages', 'flag-early-return', 'per-class-armor-ok-predicate',
+                            'itemgetter-get-find', 'error-factory-dict-lookup-label'), 1):
+    _TD('C10', 'stress-C-twin%02d-%s' % (_i, _what), 'G9-C-twin%02d.diff' % _i)
+for _i, (_what, _r) in enumerate((('message-labels-substring', 'C10.5'), ('key-word-block', 'C10.5'), ('signature-and-or', 'C10.5'), ('check-after-first-packet', 'C10.5'),
+                                  ('key-check-only-warns', 'C10.5'), ('cleartext-or-empty', 'C10.5'), ('cleartext-unescaped-twice', 'C10.5'),
+                                  ('key-magic-via-is-public', 'C10.4')), 1):
+    _MD('C10', 'stress-C-mut%02d-%s' % (_i, _what), 'G9-C-mut%02d.diff' % _i, _r)
+for _i in range(1, 11):
+    _TD('C10', 'stress-B-twin%02d-reader-regex-respelling' % _i, 'G9-B-twin%02d.diff' % _i)
+for _i, _what, _r in ((1, 'crc-zero-skips-check', 'C10.6'), (2, 'unarmor-match-not-search', 'C10.7'), (4, 'reader-lines-64', 'C10.3'), (5, 'crc-group-1-to-4', 'C10.2'),
+                      (6, 'end-label-free', 'C10.7')):
+    _MD('C10', 'stress-B-mut%02d-%s' % (_i, _what), 'G9-B-mut%02d.diff' % _i, _r)
+
 # =============================================================================================== C11
 M('C11', 'escape-two-spaces', PGP, "        return re.subn(r'^-', '- -', text, flags=re.MULTILINE)[0]", "        return re.subn(r'^-', '-  -', text, flags=re.MULTILINE)[0]", 'C11.1')
 M('C11', 'unescape-no-multiline', PGP, "        return re.subn(r'^- ', '', text, flags=re.MULTILINE)[0]", "        return re.subn(r'^- ', '', text)[0]", 'C11.1')
@@ -1386,6 +1773,161 @@ M('C11', 'hash-alphabet-no-digits', TY, "(Hash:\\ (?P<hashes>[A-Za-z0-9\\-,]+)(?
 M('C11', 'final-line-greedy', TY, "(?P<cleartext>(.*\\r?\\n)*(.*?(?=\\r?\\n-{5})))(?:\\r?\\n)", "(?P<cleartext>(.*\\r?\\n)*(.*(?=\\r?\\n-{5})))(?:\\r?\\n)", 'C11.7')
 T('C11', 'twin-sub-instead-of-subn', PGP, "        return re.subn(r'^- ', '', text, flags=re.MULTILINE)[0]", "        return re.sub(r'^- ', '', text, flags=re.MULTILINE)")
 T('C11', 'twin-strip-at-end-line', PGP, "            return re.subn(r'[ \\t]+(?=\\r?$)', '', self.message, flags=re.MULTILINE)[0]", "            return re.sub(r'[\\t ]+(?=\\r?$)', '', self.message, flags=re.MULTILINE)")
+
+# ---- C11 hardening: twins (every family a rule was made blind to) and new mutants (one or more per rewritten rule)
+_ESC = "        return re.subn(r'^-', '- -', text, flags=re.MULTILINE)[0]"
+_UNE = "        return re.subn(r'^- ', '', text, flags=re.MULTILINE)[0]"
+T('C11', 'twin-dash-compiled-constants', PGP, _UNE, "        unescaped = PGPMessage._dash_escaped_line.sub('', text)\n        return unescaped",
+  more=[(PGP, _ESC, "        escaped = PGPMessage._dash_leading_line.sub('- -', text)\n        return escaped"),
+        (PGP, "class PGPMessage(Armorable, PGPObject):\n", "class PGPMessage(Armorable, PGPObject):\n    _dash_escaped_line = re.compile(r'^- ', flags=re.MULTILINE)\n    _dash_leading_line = re.compile(r'^-', flags=re.MULTILINE)\n\n")])
+T('C11', 'twin-dash-inline-flag-positional', PGP, _ESC, "        return re.sub(r'(?m)^-', '- -', text)",
+  more=[(PGP, _UNE, "        return re.sub('^- ', '', text, 0, re.M)")])
+T('C11', 'twin-dash-group-backreference', PGP, _ESC, "        return re.sub(r'^(-)', r'- \\1', text, flags=re.MULTILINE)")
+T('C11', 'twin-dash-whole-match-reference', PGP, _ESC, "        return re.sub(r'^-', r'- \\g<0>', text, flags=re.M)")
+T('C11', 'twin-dash-lookahead-insert', PGP, _ESC, "        return re.sub(r'^(?=-)', '- ', text, flags=re.MULTILINE)")
+M('C11', 'escape-first-match-only', PGP, _ESC, "        return re.subn(r'^-', '- -', text, count=1, flags=re.MULTILINE)[0]", 'C11.1')
+M('C11', 'escape-start-of-text-only', PGP, _ESC, "        return re.subn(r'\\A-', '- -', text, flags=re.MULTILINE)[0]", 'C11.1')
+M('C11', 'escape-drops-dash', PGP, _ESC, "        return re.subn(r'^-', '- ', text, flags=re.MULTILINE)[0]", 'C11.1')
+M('C11', 'unescape-optional-space', PGP, _UNE, "        return re.subn(r'^- ?', '', text, flags=re.MULTILINE)[0]", 'C11.1')
+M('C11', 'unescape-only-before-dash', PGP, _UNE, "        return re.subn(r'^- (?=-)', '', text, flags=re.MULTILINE)[0]", 'C11.1')
+M('C11', 'unescape-any-dash-space', PGP, _UNE, "        return re.subn(r'- ', '', text, flags=re.MULTILINE)[0]", 'C11.1')
+M('C11', 'unescape-other-text', PGP, _UNE, "        return re.subn(r'^- ', '', text.strip(), flags=re.MULTILINE)[0]", 'C11')
+
+_MSTR = """        if self.type == 'cleartext':
+            tmpl = u"-----BEGIN PGP SIGNED MESSAGE-----\\n" \\
+                   u"{hhdr:s}\\n" \\
+                   u"{cleartext:s}\\n" \\
+                   u"{signature:s}"
+
+            # only add a Hash: header if we actually have at least one signature
+            hashes = set(s.hash_algorithm.name for s in self.signatures)
+            hhdr = 'Hash: {hashes:s}\\n'.format(hashes=','.join(sorted(hashes))) if hashes else ''
+
+            return tmpl.format(hhdr=hhdr,
+                               cleartext=self.dash_escape(self.bytes_to_text(self._message)),
+                               signature=super(PGPMessage, self).__str__())
+
+        return super(PGPMessage, self).__str__()
+"""
+T('C11', 'twin-str-early-return-concat', PGP, _MSTR, """        if self.type != 'cleartext':
+            return super(PGPMessage, self).__str__()
+
+        hash_names = {sig.hash_algorithm.name for sig in self.signatures}
+        if hash_names:
+            hash_header = 'Hash: ' + ','.join(sorted(hash_names)) + '\\n'
+        else:
+            hash_header = ''
+
+        escaped_text = self.dash_escape(self.bytes_to_text(self._message))
+        signature_block = super(PGPMessage, self).__str__()
+
+        return u"-----BEGIN PGP SIGNED MESSAGE-----\\n{hhdr:s}\\n{cleartext:s}\\n{signature:s}".format(
+            hhdr=hash_header, cleartext=escaped_text, signature=signature_block)
+""")
+T('C11', 'twin-str-fstring-list', PGP, _MSTR, """        armor = super().__str__()
+        if self.type == 'cleartext':
+            names = sorted(set([s.hash_algorithm.name for s in self._signatures]))
+            out = '-----BEGIN PGP SIGNED MESSAGE-----\\n'
+            if len(names) > 0:
+                out += f"Hash: {','.join(names)}\\n"
+            out += '\\n' + self.dash_escape(self.message) + '\\n'
+            return out + armor
+
+        return armor
+""")
+T('C11', 'twin-str-percent', PGP, "            hhdr = 'Hash: {hashes:s}\\n'.format(hashes=','.join(sorted(hashes))) if hashes else ''",
+  "            hhdr = ''\n            if hashes:\n                hhdr = 'Hash: %s\\n' % ','.join(sorted(hashes))")
+M('C11', 'hash-header-space-separated', PGP, "hashes=','.join(sorted(hashes))", "hashes=', '.join(sorted(hashes))", 'C11.3')
+M('C11', 'hash-header-first-signature-only', PGP, "            hashes = set(s.hash_algorithm.name for s in self.signatures)", "            hashes = set(s.hash_algorithm.name for s in self.signatures[:1])", 'C11.3')
+M('C11', 'hash-header-lowercase', PGP, "            hashes = set(s.hash_algorithm.name for s in self.signatures)", "            hashes = set(s.hash_algorithm.name.lower() for s in self.signatures)", 'C11.3')
+M('C11', 'hash-header-when-empty', PGP, "if hashes else ''", "if not hashes else ''", 'C11.3')
+M('C11', 'hash-header-no-blank-line', PGP, "                   u\"{hhdr:s}\\n\" \\\n", "                   u\"{hhdr:s}\" \\\n", 'C11.3')
+M('C11', 'escape-twice-on-write', PGP, "cleartext=self.dash_escape(self.bytes_to_text(self._message)),", "cleartext=self.dash_escape(self.dash_escape(self.bytes_to_text(self._message))),", 'C11.2')
+M('C11', 'write-raw-message-bytes', PGP, "cleartext=self.dash_escape(self.bytes_to_text(self._message)),", "cleartext=self.dash_escape(str(self._message)),", 'C11.2')
+M('C11', 'hash-reader-no-dash', TY, "(Hash:\\ (?P<hashes>[A-Za-z0-9\\-,]+)(?:\\r?\\n){2})?", "(Hash:\\ (?P<hashes>[A-Za-z0-9_]+)(?:\\r?\\n){2})?", 'C11.3')
+M('C11', 'hash-reader-one-newline', TY, "(Hash:\\ (?P<hashes>[A-Za-z0-9\\-,]+)(?:\\r?\\n){2})?", "(Hash:\\ (?P<hashes>[A-Za-z0-9\\-,]+)(?:\\r?\\n))?", 'C11.3')
+T('C11', 'twin-regex-newlines-spelled-out', TY, "(Hash:\\ (?P<hashes>[A-Za-z0-9\\-,]+)(?:\\r?\\n){2})?", "(Hash:\\ (?P<hashes>[-,0-9A-Za-z]+)\\r?\\n(?:\\r\\n|\\n))?",
+  more=[(TY, "(^-{5}BEGIN\\ PGP\\ SIGNED\\ MESSAGE-{5}(?:\\r?\\n)", "(^-{5}BEGIN\\ PGP\\ SIGNED\\ MESSAGE-{5}\\r?\\n"),
+        (TY, "(?P<cleartext>(.*\\r?\\n)*(.*?(?=\\r?\\n-{5})))(?:\\r?\\n)", "(?P<cleartext>(?:.*\\r?\\n)*(?:.*?(?=\\r?\\n-----)))\\r?\\n")])
+M('C11', 'final-line-greedy-noncapturing', TY, "(?P<cleartext>(.*\\r?\\n)*(.*?(?=\\r?\\n-{5})))(?:\\r?\\n)", "(?P<cleartext>(?:.*\\r?\\n)*(?:.*(?=\\r?\\n-{5})))(?:\\r?\\n)", 'C11.7')
+
+T('C11', 'twin-parse-unescape-temporary', PGP, "            self |= self.dash_unescape(unarmored['cleartext'])", "            text = unarmored['cleartext']\n            text = self.dash_unescape(text)\n            self |= text")
+M('C11', 'unescape-stripped-group', PGP, "            self |= self.dash_unescape(unarmored['cleartext'])", "            self |= self.dash_unescape(unarmored['cleartext'].strip())", 'C11.2')
+M('C11', 'unescape-result-dropped', PGP, "            self |= self.dash_unescape(unarmored['cleartext'])", "            self.dash_unescape(unarmored['cleartext'])\n            self |= unarmored['cleartext']", 'C11.2')
+
+_SD = "            return re.subn(r'[ \\t]+(?=\\r?$)', '', self.message, flags=re.MULTILINE)[0]"
+T('C11', 'twin-signed-data-compiled-inline-flag', PGP, _SD, "            stripped = PGPMessage._trailing_blanks.sub('', self.message)\n            return stripped",
+  more=[(PGP, "class PGPMessage(Armorable, PGPObject):\n", "class PGPMessage(Armorable, PGPObject):\n    _trailing_blanks = re.compile(r'(?m)[\\t ]+(?=\\r?$)')\n\n")])
+T('C11', 'twin-signed-data-ifexp', PGP, "        if self.type == 'cleartext':\n            # RFC 4880 7.1: trailing spaces and tabs of each line are not part of the signed text\n" + _SD + "\n\n        return self.message",
+  "        return re.sub('[ \\t]+(?=\\r?$)', '', self.message, flags=re.M) if self.type == 'cleartext' else self.message")
+M('C11', 'strip-star', PGP, _SD, "            return re.subn(r'[ \\t]*(?=\\r?$)', 'x', self.message, flags=re.MULTILINE)[0]", 'C11.4')
+M('C11', 'strip-before-newline-only', PGP, _SD, "            return re.subn(r'[ \\t]+(?=\\r?\\n)', '', self.message, flags=re.MULTILINE)[0]", 'C11.4')
+M('C11', 'strip-first-line-only', PGP, _SD, "            return re.subn(r'[ \\t]+(?=\\r?$)', '', self.message, count=1, flags=re.MULTILINE)[0]", 'C11.4')
+M('C11', 'strip-all-whitespace-class', PGP, _SD, "            return re.subn(r'[ \\t\\r]+(?=\\r?$)', '', self.message, flags=re.MULTILINE)[0]", 'C11.4')
+M('C11', 'strip-applied-to-literal-too', PGP, "            return re.subn(r'[ \\t]+(?=\\r?$)', '', self.message, flags=re.MULTILINE)[0]\n\n        return self.message",
+  "            return re.subn(r'[ \\t]+(?=\\r?$)', '', self.message, flags=re.MULTILINE)[0]\n\n        return self.message.strip()", 'C11.4')
+
+_SIGN = """        sig_type = SignatureType.BinaryDocument
+        hash_algo = prefs.pop('hash', None)
+
+        if subject is None:
+            sig_type = SignatureType.Timestamp
+
+        if isinstance(subject, PGPMessage):
+            if subject.type == 'cleartext':
+                sig_type = SignatureType.CanonicalDocument
+
+            subject = subject._signed_data
+
+        sig = PGPSignature.new(sig_type, self.key_algorithm, hash_algo, self.fingerprint.keyid, created=prefs.pop('created', None))
+"""
+T('C11', 'twin-sign-if-chain', PGP, _SIGN, """        hash_algo = prefs.pop('hash', None)
+
+        if subject is None:
+            sig_type = SignatureType.Timestamp
+
+        elif isinstance(subject, PGPMessage):
+            is_cleartext = subject.type == 'cleartext'
+            sig_type = SignatureType.CanonicalDocument if is_cleartext else SignatureType.BinaryDocument
+            subject = subject._signed_data
+
+        else:
+            sig_type = SignatureType.BinaryDocument
+
+        sig = PGPSignature.new(sig_type, self.key_algorithm, hash_algo, self.fingerprint.keyid,
+                               created=prefs.pop('created', None))
+""", more=[(PGP, "            _data += re.subn(br'\\r?\\n', b'\\r\\n', subject)[0]", "            canonical = re.sub(br'\\r?\\n', b'\\r\\n', subject)\n            _data += canonical")])
+M('C11', 'sign-view-only-for-literal', PGP, "                sig_type = SignatureType.CanonicalDocument\n\n            subject = subject._signed_data", "                sig_type = SignatureType.CanonicalDocument\n                subject = subject.message\n\n            else:\n                subject = subject._signed_data", 'C11.4')
+M('C11', 'cleartext-signed-as-standalone', PGP, "                sig_type = SignatureType.CanonicalDocument\n", "                sig_type = SignatureType.Standalone\n", 'C11.6')
+M('C11', 'literal-signed-as-text', PGP, "        if isinstance(subject, PGPMessage):\n            if subject.type == 'cleartext':\n                sig_type = SignatureType.CanonicalDocument", "        if isinstance(subject, PGPMessage):\n            if subject.type in ('cleartext', 'literal'):\n                sig_type = SignatureType.CanonicalDocument", 'C11.6')
+
+T('C11', 'twin-verify-extend-generators', PGP, "                for sig in _filter_sigs(subject.signatures):\n                    sspairs.append((sig, subject._signed_data))",
+  "                sspairs.extend((sig, subject._signed_data) for sig in _filter_sigs(subject.signatures))")
+T('C11', 'twin-verify-view-in-local', PGP, "                for sig in _filter_sigs(subject.signatures):\n                    sspairs.append((sig, subject._signed_data))",
+  "                signed_view = subject._signed_data\n                sspairs += [(s, signed_view) for s in _filter_sigs(subject.signatures)]")
+M('C11', 'verify-stripped-message', PGP, "                    sspairs.append((sig, subject._signed_data))", "                    sspairs.append((sig, subject.message.rstrip()))", 'C11.4')
+M('C11', 'verify-message-object', PGP, "                    sspairs.append((sig, subject._signed_data))", "                    sspairs.append((sig, subject))", 'C11.4')
+T('C11', 'twin-str-hash-header-if-signatures', PGP, "            hhdr = 'Hash: {hashes:s}\\n'.format(hashes=','.join(sorted(hashes))) if hashes else ''",
+  "            hhdr = ''\n            if self.signatures:\n                hhdr = 'Hash: ' + ','.join(sorted(hashes)) + '\\n'")
+M('C11', 'hash-header-if-no-signatures', PGP, "            hhdr = 'Hash: {hashes:s}\\n'.format(hashes=','.join(sorted(hashes))) if hashes else ''",
+  "            hhdr = ''\n            if not self.signatures:\n                hhdr = 'Hash: ' + ','.join(sorted(hashes)) + '\\n'", 'C11.3')
+T('C11', 'twin-dash-per-line-str-methods', PGP, _ESC, "        return '\\n'.join('- ' + line if line.startswith('-') else line for line in text.split('\\n'))",
+  more=[(PGP, _UNE, "        return '\\n'.join(line.removeprefix('- ') for line in text.split('\\n'))")])
+M('C11', 'escape-per-line-wrong-prefix-test', PGP, _ESC, "        return '\\n'.join('- ' + line if line.startswith('--') else line for line in text.split('\\n'))", 'C11.1')
+M('C11', 'unescape-per-line-removes-dash-only', PGP, _UNE, "        return '\\n'.join(line.removeprefix('-') for line in text.split('\\n'))", 'C11.1')
+
+for _i, _what in enumerate(('sub-everywhere-early-return', 'precompiled-class-constants', 'inline-flag-merged-template-concat', 'positional-count-flags-if-chain-listcomp',
+                            'regex-respellings-percent-bound-super', 'lookahead-insert-mangled-template-fstring', 'inverted-view-flag-extend-generator',
+                            'mangled-compiled-join-parts', 'verify-hoisted-view-local-compile', 'nonraw-patterns-positional-fields-count0'), 1):
+    _TD('C11', 'stress-D-twin%02d-%s' % (_i, _what), 'G9-D-twin%02d.diff' % _i)
+for _i, (_what, _r) in enumerate((('escape-str-replace-first-line', 'C11.1'), ('unescape-flag-in-count-position', 'C11.1'), ('text-literal-signed-as-canonical', 'C11.6'),
+                                  ('strip-misses-last-line', 'C11.4'), ('hash-header-lowercase-hasher-name', 'C11.3'), ('blank-line-folded-into-hash-header', 'C11.3'),
+                                  ('verify-raw-message', 'C11.4'), ('lone-cr-canonicalised', 'C11.4')), 1):
+    _MD('C11', 'stress-D-mut%02d-%s' % (_i, _what), 'G9-D-mut%02d.diff' % _i, _r)
+for _i in range(1, 11):
+    _TD('C11', 'stress-B-twin%02d-reader-regex-respelling' % _i, 'G9-B-twin%02d.diff' % _i)
+for _i, _what, _r in ((7, 'hash-framing-two-or-more', 'C11.3'), (8, 'final-cleartext-line-greedy', 'C11.7')):
+    _MD('C11', 'stress-B-mut%02d-%s' % (_i, _what), 'G9-B-mut%02d.diff' % _i, _r)
 
 # =============================================================================================== C09
 M('C09', 'enc-191', TY, "            if 192 > nl:\n                return Header.int_to_bytes(nl)", "            if 191 > nl:\n                return Header.int_to_bytes(nl)", 'C09.1')
